@@ -58,8 +58,12 @@ func c33TypesDecoders() []ref.C33Decoder {
 			Decode: func(in []byte) (any, error) { return types.NewBodyFromBytes(in) },
 			Encode: func(m any) ([]byte, error) { return scale.Marshal(*m.(*types.Body)) }},
 		{Name: "Header(scale.Unmarshal)", Catalogue: headCat,
-			Decode: func(in []byte) (any, error) { h := types.NewEmptyHeader(); err := scale.Unmarshal(in, h); return h, err },
-			Encode: func(m any) ([]byte, error) { return scale.Marshal(*m.(*types.Header)) },
+			Decode: func(in []byte) (any, error) {
+				h := types.NewEmptyHeader()
+				err := scale.Unmarshal(in, h)
+				return h, err
+			},
+			Encode:  func(m any) ([]byte, error) { return scale.Marshal(*m.(*types.Header)) },
 			Observe: func(m any) { _ = m.(*types.Header).String() }},
 		{Name: "DecodeBabePreDigest", Catalogue: babeCat,
 			Decode: func(in []byte) (any, error) { return types.DecodeBabePreDigest(in) },
@@ -81,7 +85,7 @@ func c33TypesDecoders() []ref.C33Decoder {
 func TestVerif_C33_types(t *testing.T) {
 	r := verifmc.NewReport("C33", "types", "exploration")
 	defer r.Write()
-	cfg := ref.C33Config{MaxLen: verifmc.Pick(2, 3), CraftedScale: verifmc.Pick([]uint64{1 << 14, 1 << 22}, []uint64{1 << 14, 1 << 22, 1 << 30}), AllocAll: verifmc.Thorough()}
+	cfg := ref.C33Config{MaxLen: verifmc.Pick(2, 3), CraftedScale: verifmc.Pick([]uint64{1 << 14, 1 << 20}, []uint64{1 << 14, 1 << 22, 1 << 30}), AllocAll: verifmc.Thorough()}
 	r.Rule = ref.C33Rule(cfg)
 	for _, a := range ref.C33Assumptions() {
 		r.Assumption(a)
